@@ -11,7 +11,7 @@ import (
 )
 
 var batchAssumptions = []string{
-	"inputs are generated inside the stated finite alphabets only (see DESIGN.md 2.4): every document has one stored _id field, indexing options are uniform per field name inside a batch, analysed length >= 1 when a token has frequency >= 1, locations name fields of the batch",
+	"inputs are generated inside the stated finite alphabets only (see DESIGN.md 2.4): every document has one stored _id field, indexing options are uniform per field name inside a batch, locations name fields of the batch (an analysed length of 0 next to tokens is covered by one merge-menu segment only)",
 	"Go map iteration order inside zapx is runtime-random and cannot be enumerated; all oracles are semantic so every order must pass",
 }
 
